@@ -8,6 +8,65 @@ def _stat(ln, key):
     return int(m.group(1)) if m else 0
 
 
+
+# ---- census: the control-flow skeleton of PoolRefiller the pool model was written from ----------------
+# (structure only, no semantics: a new select! arm, a new place where connections enter `conns`, are
+# published, opened, or get their keyspace set cannot appear without this check failing as a broken
+# correspondence; the model's labels are listed next to the tokens they stand for)
+CENSUS_FILE = "scylla/src/network/connection_pool.rs"
+CENSUS_ARMS = [  # select! arms of PoolRefiller::run, in order          -> model label(s)
+    ("_", "tokio::time::sleep_until"),                      # start_filling        -> OpenStart*
+    ("evt", "self.ready_connections.select_next_some"),     # handle_ready_connection -> OpenReady / SetKsDone / ClearExcess
+    ("evt", "self.connection_errors.select_next_some"),     # remove_connection    -> ConnError
+    ("req", "use_keyspace_request_receiver.recv"),          # use_keyspace         -> UseKeyspace (+ UseSend/UseDone/UseTimeout of the spawned task)
+    ("_", "self.refill_now_notify.notified"),               # reschedules the refill only
+]
+CENSUS_COUNTS = {  # occurrences in the non-test part of the file
+    r"\.update_shared_conns\(": 4,
+    r"self\.start_opening_connection\(": 5,
+    r"self\.start_setting_keyspace_for_connection\(": 1,
+    r"self\.current_keyspace = ": 1,
+    r"shard_conns\.push\(": 1,
+    r"self\.conns\.clear\(\)": 1,
+    r"\.swap_remove\(": 2,
+    r"self\.excess_connections\.push\(": 1,
+    r"self\.excess_connections\.clear\(\)": 3,
+    r"self\.ready_connections\s*\.push\(": 2,
+    r"self\.use_keyspace\(": 1,
+    r"self\.remove_connection\(": 1,
+    r"self\.handle_ready_connection\(": 1,
+    r"self\.start_filling\(\)": 1,
+    r"self\.maybe_reshard\(": 1,
+}
+
+
+def _census():
+    import os
+    from orchestrate import common
+    path = os.path.join(getattr(common, "REPO", "/repo"), CENSUS_FILE)
+    try:
+        src = open(path).read()
+    except OSError as ex:
+        return ["cannot read %s: %s" % (path, ex)]
+    cut = src.find("#[cfg(test)]\nmod tests")
+    if cut >= 0:
+        src = src[:cut]
+    bad = []
+    try:
+        run = src[src.index("pub(crate) async fn run("):src.index("fn is_filling(&self)")]
+        arms = [(a, re.sub(r"\(.*", "", b.strip())) for a, b in
+                re.findall(r"^\s*(\w+) = ([^\n]*?)(?:, if [^\n]*)? => \{", run, re.M)]
+        if arms != CENSUS_ARMS:
+            bad.append("select! arms of PoolRefiller::run are %r, the model was written for %r" % (arms, CENSUS_ARMS))
+    except ValueError:
+        bad.append("PoolRefiller::run / is_filling not found")
+    for pat, n in CENSUS_COUNTS.items():
+        k = len(re.findall(pat, src))
+        if k != n:
+            bad.append("%d occurrences of /%s/ (model written for %d)" % (k, pat, n))
+    return bad
+
+
 def _skipped(ln):
     return ln.startswith("E ") and "| not-run" in ln
 
@@ -20,11 +79,12 @@ def _post(lines, verdicts):
     * of the started scenarios at least 80 % must contain request frames judged strictly (requests started
       while a keyspace was established by an undisturbed successful call), at least 50 % such frames on
       connections accepted AFTER that call returned, and overall there must be prepared-statement frames
-      and frames that overtook a delayed SetKeyspace answer (the send->ack window is open)."""
+      BATCH, paged and overtaking frames, node restarts and reshards;
+    * the census of PoolRefiller's control-flow skeleton must match the one the model was written from."""
+    out = [("diff", "census " + CENSUS_FILE, "diff census: " + b) for b in _census()]
     e = [ln for ln in lines if ln.startswith("E ")]
     if not e:
-        return []
-    out = []
+        return out
     sk = [ln for ln in e if _skipped(ln)]
     if len(sk) > max(3, len(e) // 50):
         out.append(("diff", sk[0], "diff e2e tie not exercised: %d of %d scenarios were not run (%s)"
@@ -37,7 +97,7 @@ def _post(lines, verdicts):
             if frac(key) < floor:
                 out.append(("diff", st[0][:200], "diff e2e floor: only %.0f%% of %d started scenarios have %s > 0 (floor %.0f%%)"
                             % (100 * frac(key), len(st), key, 100 * floor)))
-        for key in ("pre", "early", "ok"):
+        for key in ("pre", "bat", "pag", "early", "ok", "rst", "rsh"):
             if len(st) >= 100 and sum(_stat(ln, key) for ln in st) == 0:
                 out.append(("diff", st[0][:200], "diff e2e floor: no scenario has %s > 0" % key))
     return out
@@ -55,6 +115,11 @@ def _e2e_cov(lines):
         "e2e_strict_frames_on_connections_opened_after_the_call": sum(_stat(ln, "late") for ln in e),
         "e2e_scenarios_with_strict_frames": sum(1 for ln in e if _stat(ln, "strict") > 0),
         "e2e_prepared_statement_frames": sum(_stat(ln, "pre") for ln in e),
+        "e2e_batch_frames": sum(_stat(ln, "bat") for ln in e),
+        "e2e_paged_query_frames": sum(_stat(ln, "pag") for ln in e),
+        "e2e_node_restarts": sum(_stat(ln, "rst") for ln in e),
+        "e2e_reshards": sum(_stat(ln, "rsh") for ln in e),
+        "e2e_scenarios_ending_with_more_than_3_nodes": sum(1 for ln in e if _stat(ln, "nd") > 3),
         "e2e_delayed_setkeyspace_answers": sum(_stat(ln, "dly") for ln in e),
         "e2e_frames_that_overtook_a_delayed_answer": sum(_stat(ln, "early") for ln in e),
         "e2e_handler_vs_mocknode_keyspace_disagreements": sum(_stat(ln, "xck") for ln in e),
@@ -81,8 +146,9 @@ SPEC = {
              "request bursts, kill all connections of a node, close one connection, add a node, sleep; always ending with a "
              "clean use + kill + requests; non-trivial = N/V/A cases and E scenarios with at least one request frame checked "
              "strictly after an undisturbed successful use; also USE issued as an ordinary statement, every third request as "
-             "EXECUTE of a prepared statement; acknowledged keyspace = last SetKeyspace answer WRITTEN (delayed answers apply "
-             "when their delay elapsed); scenarios not run (no session/mock, harness cap) are counted and fail the check above "
+             "EXECUTE of a prepared statement, every sixth as BATCH, every sixth as paged QUERY; node stop+start and change of "
+             "nr_shards (pool rebuilt) standalone and racing with use_keyspace, node addition racing with it; acknowledged "
+             "keyspace = mocknode's record (last SetKeyspace answer completely written); scenarios not run (no session/mock, harness cap) are counted and fail the check above "
              "max(3, 2%); floors: 80% of started scenarios with strict frames, 50% with strict frames on connections opened "
              "after the call, some prepared frames and some frames overtaking a delayed answer; "
              "distinct = distinct case lines"),
@@ -92,7 +158,8 @@ SPEC = {
     "search_rounds": 1,
     "runner_timeout": 3000,
     "trusted_base": [
-        "vh::mocknode (scripted CQL mock cluster) + the runner's handler, which keeps per connection the keyspace of the last SetKeyspace answer written (a delayed answer counts from the end of its delay; mocknode's own record marks it when the USE frame is handled and is only cross-checked) and records request-frame arrivals and client-side call/return/start events in one mutex-ordered sequence",
+        "vh::mocknode (scripted CQL mock cluster): per connection the keyspace of the last SetKeyspace answer completely written (ReqCtx.keyspace); the runner's handler records request-frame arrivals and client-side call/return/start events in one mutex-ordered sequence and keeps its own acknowledgement record as a cross-check",
+        "census (checks/c20.py): select! arms of PoolRefiller::run and the counts of the sites where connections are opened / set up / pushed / published, compared with the values the model was written from",
         "hook scylla::client::verif_keyspace (pass-through to VerifiedKeyspaceName::new, Connection::verify_use_keyspace_result, cluster::use_keyspace_result)",
         "valid_name / parse_use are the name grammar and statement shape transcribed from the property text",
     ],
